@@ -49,9 +49,12 @@ MANIFEST = dict(
           "of another and none starts with '&' the assembled alternatives are mutually exclusive), html5_table_ok (decide +kernel over the "
           "whole stdlib html5 table), populate_order_irrelevant(_live) (any relisting of the look-ahead classes and of the alternatives "
           "gives the same substitute_html); Formatter subclasses overriding attributes(): attributes_hook_default / _decides / "
-          "base_attributes_ignore_insertion_order. Every theorem with hypotheses is instantiated on concrete data. Tie: the constructor grid, formatter_for_name grid and "
+          "base_attributes_ignore_insertion_order; non_str_attribute_values_are_substituted (AttrVal.other: a value that is not a str is "
+          "stringified before the substitution, and is never a boolean attribute). Every theorem with hypotheses is instantiated on concrete data. Tie: the constructor grid, formatter_for_name grid and "
           "rendering through every entry point on generated trees of both flavours, three-way: real code / direct oracle / Lean model; "
-          "instrumented custom functions; all attribute insertion orders; histories (hand-made builder-less elements put into a tree of one "
+          "instrumented custom functions; all attribute insertion orders; attribute values that are not str at rendering time (int, float, "
+          "bool, Decimal, PurePosixPath, a URL-like object; set on built and on parsed tags, i.e. held raw in a plain AttributeDict) in "
+          "every stream; histories (hand-made builder-less elements put into a tree of one "
           "flavour, read-only operations there, moved into a tree of another flavour, rendered from the element, its descendants, its "
           "parent and the root with names/None/bare functions: equal to a never-touched twin, to the oracle for the current flavour and to "
           "the model's walk over the known_xml chain); parses under builder configurations (empty_element_tags / preserve_whitespace_tags / "
@@ -345,19 +348,62 @@ def build_tree(recipe):
         _, name, prefix, attrs, kids = spec
         t = soup.new_tag(name, nsprefix=prefix or None) if prefix else soup.new_tag(name)
         for k, v in attrs:
-            t.attrs[k] = v
+            t.attrs[k] = decode_val(v)
         parent.append(t)
         for k in kids:
             mk(k, t)
     for spec in recipe.get("nodes") or []:
         mk(spec, soup)
+    # values assigned to PARSED tags afterwards (tag[key] = obj): [[index of the tag among soup.find_all(True), key, value]]
+    if recipe.get("set"):
+        tags = soup.find_all(True)
+        for ti, k, v in recipe["set"]:
+            if tags:
+                tags[ti % len(tags)][k] = decode_val(v)
     return soup
 
 
 TEXTS = ["x", "a & b", "1 < 2 > 0", "\"q\" 'r'", "café ☃", "&amp; &lt x &copy;", " lead", "trail \n", "  ", "\n",
          "≧̸ ≧", "fj <>", "\U0001f600", " nb ", "&#65; &unknown;", "", "]]>", "-->", "a\tb", "≪⃒≪"]
 ATTR_KEYS = ["a", "b", "c", "id", "class", "href", "data-x", "A", "é", "aa", "z9", "rel"]
-ATTR_VALS = ["", "v", "a&b", "x<y", "say \"hi\"", "it's", "\"both' kinds\"", "café", "&amp;", None, ["x", "y"], ["one"], [], " ", "≧̸"]
+ATTR_VALS = ["", "v", "a&b", "x<y", "say \"hi\"", "it's", "\"both' kinds\"", "café", "&amp;", None, ["x", "y"], ["one"], [], " ", "≧̸",
+             # values that are not str at rendering time (held raw by a parsed tag's plain AttributeDict): {"obj": kind, "text": str()}
+             {"obj": "int", "text": "42"}, {"obj": "float", "text": "2.5"}, {"obj": "bool", "text": "True"}, {"obj": "bool", "text": "False"},
+             {"obj": "strobj", "text": "/s?lt=<1>&q=café"}, {"obj": "strobj", "text": ""}, {"obj": "strobj", "text": "say \"x\" & 'y'"},
+             {"obj": "path", "text": "/a&b/c"}, {"obj": "decimal", "text": "-0.50"}, {"obj": "strobj", "text": "≪⃒ é"}]
+
+
+class StrObj(object):
+    """a value object (URL-like): not a str, str() gives the text"""
+
+    def __init__(self, text):
+        self.text = text
+
+    def __str__(self):
+        return self.text
+
+    def __repr__(self):
+        return "StrObj(%r)" % self.text
+
+
+def decode_val(v):
+    """recipe value -> the Python object put into tag.attrs"""
+    if not isinstance(v, dict):
+        return v
+    kind, text = v["obj"], v["text"]
+    if kind == "int":
+        return int(text)
+    if kind == "float":
+        return float(text)
+    if kind == "bool":
+        return text == "True"
+    if kind == "path":
+        import pathlib
+        return pathlib.PurePosixPath(text)
+    if kind == "decimal":
+        import decimal
+        return decimal.Decimal(text)
+    return StrObj(text)
 TAGS = ["div", "p", "b", "i", "span", "a", "ul", "li"]
 VOID = ["br", "hr", "img", "input"]
 CDATA_TAGS = ["script", "style"]
@@ -420,7 +466,8 @@ MARKUPS = [
 def gen_recipe(r, i):
     flav = r.choice(["html", "html", "xml", "xhtml"])
     if i % 7 == 3:
-        return {"flavour": flav, "markup": r.choice(MARKUPS), "nodes": gen_nodes(r, 1, [4]) if r.random() < 0.4 else []}
+        return {"flavour": flav, "markup": r.choice(MARKUPS), "nodes": gen_nodes(r, 1, [4]) if r.random() < 0.4 else [],
+                "set": [[r.randrange(50), r.choice(ATTR_KEYS), r.choice(ATTR_VALS[-10:])] for _ in range(r.randint(0, 3))]}
     return {"flavour": flav, "markup": None, "nodes": gen_nodes(r, 0, [r.randint(3, 22)])}
 
 
@@ -444,7 +491,9 @@ def val_tok(v):
         return "N"
     if isinstance(v, (list, tuple)):
         return "l" + (";".join(ptok(x) for x in v) if v else "-")
-    return "s" + ptok(str(v))
+    if not isinstance(v, str):
+        return "o" + ptok(str(v))      # any other object: the model gets its str()
+    return "s" + ptok(str.__str__(v))
 
 
 def tree_tokens(n):
@@ -513,6 +562,8 @@ class Oracle:
                 continue
             if isinstance(v, (list, tuple)):
                 v = " ".join(v)
+            elif not isinstance(v, str):
+                v = str(v)        # every attribute value's text goes through the substitution, whatever its type
             parts.append(k + "=" + o_quote(self.sub(v)))
         nm = (t.prefix + ":" if t.prefix else "") + t.name
         return "<" + nm + ("".join(" " + p for p in parts)) + ((self.o["vecp"] or "") if void else "") + ">"
@@ -937,7 +988,8 @@ def stream_render(ctx, batch, ntrees):
             if is_tag(n):
                 ctx.count("node:void" if (not n.contents and n.can_be_empty_element is True) else "node:tag")
                 for v in n.attrs.values():
-                    ctx.count("attr:" + ("none" if v is None else "list" if isinstance(v, list) else "empty" if v == "" else "str"))
+                    ctx.count("attr:" + ("none" if v is None else "list" if isinstance(v, list) else "non-str" if not isinstance(v, str)
+                                         else "empty" if v == "" else "str"))
             else:
                 ctx.count("node:" + kind_of(n) + (":in-cdata-tag" if n.parent is not None and n.parent.name in PROP_HTML_CDATA else ""))
         for _ in range(10):
@@ -1370,7 +1422,7 @@ def make_hand(spec, flags):
         return n
     _, name, flag, attrs, kids = spec
     kw = {} if flag is None else {"is_xml": flag}
-    t = el.Tag(name=name, attrs=dict((k, v) for k, v in attrs), **kw)
+    t = el.Tag(name=name, attrs=dict((k, decode_val(v)) for k, v in attrs), **kw)
     flags[id(t)] = flag
     for k in kids:
         t.append(make_hand(k, flags))
@@ -1379,7 +1431,8 @@ def make_hand(spec, flags):
 
 def gen_hand(r, depth=0):
     name = r.choice(["script", "style", "p", "b", "br", "pre", "div"])
-    attrs = [[k, r.choice(["", "v", "a&b", "x<y", None])] for k in r.sample(["a", "b", "id"], r.choice([0, 1, 2]))]
+    attrs = [[k, r.choice(["", "v", "a&b", "x<y", None, {"obj": "strobj", "text": "u?a=1&b=<2>"}, {"obj": "int", "text": "7"}])]
+             for k in r.sample(["a", "b", "id"], r.choice([0, 1, 2]))]
     kids = []
     for _ in range(r.randint(0 if name == "br" else 1, 3)):
         if depth < 2 and r.random() < 0.3:
@@ -1860,6 +1913,8 @@ class HookOracle(Oracle):
                 continue
             if isinstance(v, (list, tuple)):
                 v = " ".join(v)
+            elif not isinstance(v, str):
+                v = str(v)
             parts.append(k + "=" + o_quote(self.sub(v)))
         nm = (t.prefix + ":" if t.prefix else "") + t.name
         return "<" + nm + ("".join(" " + p for p in parts)) + ((self.o["vecp"] or "") if void else "") + ">"
